@@ -5,6 +5,11 @@
   channel send, the atomic swap, the consumer's receive.  Items are identified by their upstream
   index `i`; the value delivered for index `i` is `f (xs[i])`.
 
+  The upstream need not be fused: `src k` says whether the `k`-th call of `upstream.next()` yields an item.
+  A worker leaves its loop on the first `None` it sees itself, so every `None` ends exactly one worker and the
+  others keep pulling; the pipe delivers the items before the `W`-th `None` (`gapDelivered`).  A fused
+  upstream of `n` items is `fused n`.
+
   The unthreaded branch (`num_threads = 0`) is `iter.map(f)` and needs no transition system.
 -/
 import TuModel.Model.Basic
@@ -19,9 +24,36 @@ inductive PC
   | exited
   deriving DecidableEq, Repr
 
+/-- a fused upstream of `n` items: the first `n` calls of `next()` yield, all later ones return `None` -/
+def fused (n : Nat) : Nat → Bool := fun k => decide (k < n)
+
+/-- the upstream that answers its first calls as listed (`true` = an item, `false` = `None`) and returns
+`None` for ever afterwards -/
+def srcOf (entries : List Bool) : Nat → Bool := fun k => entries.getD k false
+
+/-- number of items among the first `k` answers of the upstream -/
+def itemsBefore (src : Nat → Bool) : Nat → Nat
+  | 0 => 0
+  | k + 1 => itemsBefore src k + (if src k then 1 else 0)
+
+/-- number of `None` answers among the first `k` answers of the upstream -/
+def gapsBefore (src : Nat → Bool) : Nat → Nat
+  | 0 => 0
+  | k + 1 => gapsBefore src k + (if src k then 0 else 1)
+
+/-- what a pipe with `W` workers delivers from the upstream `srcOf entries`: the number of `true` entries
+before the `W`-th `false` entry (all of them if there are fewer than `W` `false` entries; 0 for `W = 0`,
+which is not a threaded pipe); every `None` ends exactly one worker -/
+def gapDelivered : Nat → List Bool → Nat
+  | 0, _ => 0
+  | _ + 1, [] => 0
+  | W + 1, true :: es => gapDelivered (W + 1) es + 1
+  | W + 1, false :: es => gapDelivered W es
+
 structure PState where
   W : Nat                 -- number of worker threads (≥ 1)
-  n : Nat                 -- upstream length
+  src : Nat → Bool        -- the `k`-th call of `upstream.next()` yields an item iff `src k` (need not be fused)
+  pulls : Nat             -- calls of `upstream.next()` made so far
   next : Nat              -- items pulled from upstream so far (`enumerate` counter)
   turn : Nat              -- `send_next`
   chan : List Nat         -- bounded channel (capacity `W`), oldest first
@@ -31,9 +63,12 @@ structure PState where
   pc : Nat → PC           -- program counter of worker `w < W`
   calls : Nat → Nat       -- how often the pipeline function was applied to item `i`
 
-def PState.init (W n : Nat) : PState :=
-  { W := W, n := n, next := 0, turn := 0, chan := [], recvd := [], dropped := false, closed := false,
+def PState.init (W : Nat) (src : Nat → Bool) : PState :=
+  { W := W, src := src, pulls := 0, next := 0, turn := 0, chan := [], recvd := [], dropped := false, closed := false,
     pc := fun _ => .idle, calls := fun _ => 0 }
+
+/-- initial state over a fused upstream of `n` items -/
+abbrev PState.initF (W n : Nat) : PState := PState.init W (fused n)
 
 def setPc (pc : Nat → PC) (w : Nat) (v : PC) : Nat → PC := fun u => if u = w then v else pc u
 def bump (calls : Nat → Nat) (i : Nat) : Nat → Nat := fun j => if j = i then calls j + 1 else calls j
@@ -49,10 +84,13 @@ inductive PAction
   | drop
   deriving DecidableEq, Repr
 
+/-- the ticket take under the mutex: one call of `upstream.next()`; on `None` this worker (and only this
+one) leaves its loop -/
 def stepTake (s : PState) (w : Nat) : Option PState :=
   if w < s.W ∧ s.pc w = .idle then
-    if s.next < s.n then some { s with pc := setPc s.pc w (.holding s.next), next := s.next + 1 }
-    else some { s with pc := setPc s.pc w .exited }
+    if s.src s.pulls then
+      some { s with pc := setPc s.pc w (.holding s.next), next := s.next + 1, pulls := s.pulls + 1 }
+    else some { s with pc := setPc s.pc w .exited, pulls := s.pulls + 1 }
   else none
 
 def stepCompute (s : PState) (w : Nat) : Option PState :=
@@ -121,10 +159,13 @@ def prun (s : PState) : List PAction → Option PState
     | some s' => prun s' as
     | none => none
 
-/-- states reachable from the initial state of a pipe with `W` workers over `n` items -/
-inductive PReach (W n : Nat) : PState → Prop
-  | init : PReach W n (PState.init W n)
-  | step {s s' : PState} (a : PAction) : PReach W n s → pstep s a = some s' → PReach W n s'
+/-- states reachable from the initial state of a pipe with `W` workers over the upstream `src` -/
+inductive PReach (W : Nat) (src : Nat → Bool) : PState → Prop
+  | init : PReach W src (PState.init W src)
+  | step {s s' : PState} (a : PAction) : PReach W src s → pstep s a = some s' → PReach W src s'
+
+/-- reachable over a fused upstream of `n` items -/
+abbrev PReachF (W n : Nat) : PState → Prop := PReach W (fused n)
 
 /-! ### `Buffered` (as repaired: the producer returns when the receiver is gone) -/
 
